@@ -1,4 +1,5 @@
 import Verif.Model.Docker
+import Verif.Lemmas.RegexSem
 /-! # C02 — Selectors pick exactly the matching containers; lines keep their origin
 
 Theorems over the model `Docker.select` / `getLabels` / `logsWindow` (tied to
@@ -124,5 +125,16 @@ example : (⟨[105], [[47, 119, 101, 98]], [], [], [], [], [], [], []⟩ : Conta
   simp only [List.mem_singleton] at hm
   subst hm
   simp [evalOp, getLabels, builtins, name]
+
+/-- **C02 (`=~` denotes the language)**: for the executable matcher the correspondence runs
+(`Regex.fullMatch`, proved to decide the textbook matching relation), `{l=~"re"}` holds of a value iff the
+WHOLE value is a word of the language of `re`, and `!~` iff it is not -/
+theorem C02_re_is_language (l v : Bytes) (re : Regex.Re) (s : Bytes) :
+    (evalOp Regex.fullMatch ⟨l, .re, v, re⟩ s = true ↔ Regex.Matches re 0 s []) ∧
+    (evalOp Regex.fullMatch ⟨l, .nre, v, re⟩ s = true ↔ ¬ Regex.Matches re 0 s []) := by
+  constructor
+  · rw [← RegexSem.fullMatch_iff]; simp [evalOp]
+  · rw [← RegexSem.fullMatch_iff]; simp [evalOp]
+
 
 end Docker
